@@ -61,10 +61,12 @@ def run_variant(v, repo_root):
             ok = any(rc == 1 for rc, _ in results.values())
             if ok and v.get('names'):
                 ok = any(v['names'] in out for rc, out in results.values() if rc == 1)
+        elif v['kind'] == 'tolerate':
+            ok = all(rc != 1 for rc, _ in results.values())
         else:
             ok = all(rc == 0 for rc, _ in results.values())
         detail = {p: dict(exit=rc, tail=[l[:300] for l in out.strip().splitlines() if l.startswith(('VIOLATION', 'INCONCLUSIVE', 'ANALYSIS-ERROR')) or '[' in l[:160]][:6]) for p, (rc, out) in results.items()}
-        return dict(id=v['id'], kind=v['kind'], props=v['props'], status='OK' if ok else 'MISS' if v['kind'] == 'fires' else 'FALSE-ALARM', detail=detail)
+        return dict(id=v['id'], kind=v['kind'], props=v['props'], status=('OK' if ok else 'MISS' if v['kind'] == 'fires' else 'FALSE-ALARM'), inconclusive=[p for p, (rc, _) in results.items() if rc == 2], detail=detail)
     finally:
         shutil.rmtree(tmp, ignore_errors=True)
 
@@ -91,13 +93,25 @@ def seeded_variants():
     return out
 
 
+def refactoring_variants():
+    """behaviour-preserving refactorings written by independent sub-agents (kept under /verif/refactorings): every check
+    must stay silent (exit 0) or, at worst, answer INCONCLUSIVE (exit 2) on them -- never VIOLATION"""
+    out = []
+    root = os.path.join(VERIF, 'refactorings')
+    if os.path.isdir(root):
+        for f in sorted(os.listdir(root)):
+            if f.endswith('.diff'):
+                out.append(dict(id='refactoring:' + f[:-5], kind='tolerate', props=['C%02d' % i for i in range(1, 21)], edits=[], patch=os.path.join(root, f), what='independent behaviour-preserving refactoring'))
+    return out
+
+
 def run_for_property(prop, repo_root=DEFAULT_REPO, jobs=None):
     """the mutant/twin matrix restricted to one property (thorough tier): each variant is checked against that property only"""
     vs = []
-    for v in VARIANTS + seeded_variants():
+    for v in VARIANTS + seeded_variants() + refactoring_variants():
         if prop in v['props']:
             v2 = dict(v)
-            v2['props'] = [prop] if v['kind'] == 'silent' or len(v['props']) == 1 or v['props'][0] == prop else [prop]
+            v2['props'] = [prop]
             # a 'fires' variant listed for several properties must fire for at least one of them; for the per-property
             # matrix it is only *expected* to fire here if this property is the first (primary) one listed
             v2['primary'] = (v['props'][0] == prop)
@@ -124,7 +138,7 @@ def main(argv=None):
     ap.add_argument('--json', default=None)
     ap.add_argument('-v', action='store_true')
     a = ap.parse_args(argv)
-    vs = VARIANTS + seeded_variants()
+    vs = VARIANTS + seeded_variants() + refactoring_variants()
     if a.only:
         want = set(a.only.upper().split(','))
         vs = [v for v in vs if want & set(v['props'])]
